@@ -561,3 +561,29 @@ func (e *Engine) lookupType(name string) types.Type {
 	}
 	return tn.Type()
 }
+
+// reaches reports whether from can (transitively, through static calls inside the package) call to.
+func (e *Engine) reaches(from, to *ssa.Function) bool {
+	seen := map[*ssa.Function]bool{}
+	var dfs func(f *ssa.Function) bool
+	dfs = func(f *ssa.Function) bool {
+		if f == to {
+			return true
+		}
+		if seen[f] || f.Pkg != e.pkg {
+			return false
+		}
+		seen[f] = true
+		for _, b := range f.Blocks {
+			for _, in := range b.Instrs {
+				if call, ok := in.(ssa.CallInstruction); ok {
+					if cal := call.Common().StaticCallee(); cal != nil && dfs(cal) {
+						return true
+					}
+				}
+			}
+		}
+		return false
+	}
+	return dfs(from)
+}
